@@ -69,11 +69,15 @@ func usr(id int64) *User {
 
 // Distributable fields: "Type.field".
 var Fields = []string{"User.secret", "User.score", "User.device", "User.devices", "User.tags", "User.scaled", "Device.temp", "Device.owner",
-	"Query.users", "Query.user1", "Query.nobody", "Query.everyone", "Query.solo", "Query.devices", "Query.devicesN", "Query.count", "Query.userById"}
+	"Query.users", "Query.user1", "Query.nobody", "Query.everyone", "Query.solo", "Query.devices", "Query.devicesN", "Query.count", "Query.userById",
+	"Mutation.newUser", "Mutation.touch"}
 
 // Rendered: the logical (argument-free) fields the reference sees for the fields with arguments.
 var Rendered = map[string][2]string{
 	"User.scaled2": {"scaled", "(by: 2)"}, "User.scaled3": {"scaled", "(by: 3)"},
+	// mutations: for the reference they are two more fields of the root object; a query that selects them
+	// selects nothing else at the top level and is sent as a mutation
+	"MRoot.mNewUser": {"newUser", ""}, "MRoot.mTouch": {"touch", ""},
 	"Query.userById1": {"userById", "(id: 1)"}, "Query.userById3": {"userById", "(id: 3)"}, "Query.userById9": {"userById", "(id: 9)"},
 }
 
@@ -94,8 +98,8 @@ func has(ss []string, s string) bool {
 // build registers on schema s every field f with serves(f).
 func build(s *schemabuilder.Schema, serves func(f string) bool) {
 	needUser := serves("User.secret") || serves("User.score") || serves("User.device") || serves("User.devices") || serves("User.tags") ||
-		serves("User.scaled") || serves("Query.userById") || serves("Query.solo") || serves("Query.users") || serves("Query.user1") || serves("Query.nobody") || serves("Query.everyone") || serves("Device.owner")
-	needDevice := serves("Device.temp") || serves("Device.owner") || serves("Query.devices") || serves("Query.devicesN") || serves("User.device") || serves("User.devices")
+		serves("User.scaled") || serves("Query.userById") || serves("Query.solo") || serves("Query.users") || serves("Query.user1") || serves("Query.nobody") || serves("Query.everyone") || serves("Device.owner") || serves("Mutation.newUser")
+	needDevice := serves("Device.temp") || serves("Device.owner") || serves("Query.devices") || serves("Query.devicesN") || serves("User.device") || serves("User.devices") || serves("Mutation.touch")
 	q := s.Query()
 	if serves("Query.count") {
 		q.FieldFunc("count", func() int64 { return 3 })
@@ -189,7 +193,13 @@ func build(s *schemabuilder.Schema, serves func(f string) bool) {
 			return out
 		})
 	}
-	s.Mutation()
+	m := s.Mutation()
+	if serves("Mutation.newUser") {
+		m.FieldFunc("newUser", func(ctx context.Context) *User { return usr(2) })
+	}
+	if serves("Mutation.touch") {
+		m.FieldFunc("touch", func(ctx context.Context) *Device { return dev(7) })
+	}
 }
 
 // BuildInto registers on s what service svc serves under partition p; false if it serves nothing.
@@ -256,6 +266,12 @@ func Exposed(schema *graphql.Schema) []string {
 		}
 	}
 	walk(schema.Query)
+	if mo, ok := schema.Mutation.(*graphql.Object); ok {
+		for n, f := range mo.Fields {
+			out = append(out, "Mutation."+n)
+			walk(f.Type)
+		}
+	}
 	sort.Strings(out)
 	return out
 }
@@ -322,7 +338,8 @@ func Describe() zoo.Desc {
 	d.Types["Query"] = zoo.TypeDesc{Kind: "OBJECT", Members: []string{}, Fields: map[string]zoo.TRef{
 		"users": list(named("User")), "user1": named("User"), "nobody": named("User"), "everyone": list(named("Everyone")), "solo": named("Solo"),
 		"devices": list(named("Device")), "devicesN": list(named("Device")), "count": named("Int"),
-		"userById1": named("User"), "userById3": named("User"), "userById9": named("User")}}
+		"userById1": named("User"), "userById3": named("User"), "userById9": named("User"),
+		"mNewUser": named("User"), "mTouch": named("Device")}}
 	d.Types["User"] = zoo.TypeDesc{Kind: "OBJECT", Key: "id", Members: []string{}, Fields: map[string]zoo.TRef{
 		"id": named("Int"), "orgId": named("Int"), "name": named("String"), "secret": named("String"), "score": named("Int"),
 		"device": named("Device"), "devices": list(named("Device")), "tags": list(named("String")),
@@ -362,7 +379,7 @@ func Describe() zoo.Desc {
 	}
 	d.Objs["q"] = zoo.ObjDesc{Type: "Query", M: map[string]tj.T{"users": refs(ru), "user1": ref("u1"), "nobody": ref(""), "solo": ref("u3"),
 		"everyone": refs(rootEveryone), "devices": refs([]string{"d8", "d7"}), "devicesN": refs([]string{"d7", "", "d8"}), "count": tj.From(3),
-		"userById1": ref("u1"), "userById3": ref("u3"), "userById9": ref("")}}
+		"userById1": ref("u1"), "userById3": ref("u3"), "userById9": ref(""), "mNewUser": ref("u2"), "mTouch": ref("d7")}}
 	ids := []int64{}
 	for id := range users {
 		ids = append(ids, id)
